@@ -104,13 +104,13 @@ Qed.
 Record F1facts (fb : flat) : Prop := {
   f1_act_sorted : fl_act fb = filter (isact fb) (seq 0 (nf fb));
   f1_implied : forall f fd, nth_error (fl_design fb) f = Some fd -> implied_ok fb f fd = true;
-  f1_factor : forall f fd, nth_error (fl_design fb) f = Some fd -> factor_f1 fd = true;
+  f1_factor : forall f fd, nth_error (fl_design fb) f = Some fd -> isact fb f = true -> factor_f1 fd = true;
   f1_tables : forall f fd, nth_error (fl_design fb) f = Some fd ->
-                           tables_ok fb f fd = true /\ tables_unambiguous fb fd = true;
+                           tables_ok fb f fd = true /\ tables_unambiguous fb f fd = true;
   f1_sustains : forall n, In n (fl_sustains fb) -> n = 1;
   f1_sustains_len : length (fl_sustains fb) = length (fl_crossings fb);
   f1_sustain : forall f, sustain_of fb f = 1;
-  f1_align_pre : fl_alignment_preamble fb = 0;
+  f1_align_pre : fl_alignment fb = PostPreamble -> fl_alignment_preamble fb = 0;
   f1_preambles : forall n, In n (fl_preambles fb) -> n = 0;
   f1_crossings : crossings_f1 fb 0 (fl_crossings fb) = true;
   f1_nodup : forall c, In c (fl_crossings fb) -> list_nat_nodup c = true;
@@ -142,7 +142,9 @@ Proof.
   - intros f fd Hf. rewrite forallb_forall in H3b.
     specialize (H3b (f, fd)). simpl in H3b. apply H3b.
     apply (nth_error_combine_seq (fl_design fb) 0 f fd Hf).
-  - intros f fd Hf. rewrite forallb_forall in H1. apply H1. eapply nth_error_In. exact Hf.
+  - intros f fd Hf Ha. rewrite forallb_forall in H1.
+    specialize (H1 (f, fd) (nth_error_combine_seq (fl_design fb) 0 f fd Hf)). cbn [fst snd] in H1.
+    rewrite Ha in H1. exact H1.
   - intros f fd Hf. rewrite forallb_forall in H2.
     specialize (H2 (f, fd)). simpl in H2. apply andb_true_iff. apply H2.
     apply (nth_error_combine_seq (fl_design fb) 0 f fd Hf).
@@ -150,7 +152,7 @@ Proof.
   - apply Nat.eqb_eq. exact H5.
   - intros f. unfold sustain_of. apply fold_overwrite_one; auto.
     intros p Hp. apply Hs. destruct p as [c s]. simpl. eapply in_combine_r. exact Hp.
-  - apply Nat.eqb_eq. exact H6.
+  - intros Ea. rewrite Ea in H6. apply Nat.eqb_eq. exact H6.
   - intros n Hn. rewrite forallb_forall in H7. apply Nat.eqb_eq. apply H7. exact Hn.
   - exact H8.
   - intros c Hc. rewrite forallb_forall in H9. apply H9. exact Hc.
@@ -272,10 +274,10 @@ Proof.
   rewrite (f1_act_sorted fb FF). apply NoDup_filter_seq.
 Qed.
 
-Lemma f1_is_complex : forall f, is_complex fb f = false.
+Lemma f1_is_complex : forall f, isact fb f = true -> is_complex fb f = false.
 Proof.
-  intros f. unfold is_complex, factor_at. destruct (nth_error (fl_design fb) f) as [fd|] eqn:E; auto.
-  pose proof (f1_factor fb FF f fd E) as H. unfold factor_f1 in H.
+  intros f Ha. unfold is_complex, factor_at. destruct (nth_error (fl_design fb) f) as [fd|] eqn:E; auto.
+  pose proof (f1_factor fb FF f fd E Ha) as H. unfold factor_f1 in H.
   repeat rewrite andb_true_iff in H. destruct H as [[H _] _].
   apply negb_true_iff. exact H.
 Qed.
@@ -283,37 +285,40 @@ Qed.
 Lemma f1_simple_act : simple_act fb = fl_act fb.
 Proof.
   unfold simple_act. apply filter_all_true.
-  intros f _. rewrite f1_is_complex. reflexivity.
+  intros f Hf. rewrite f1_is_complex; [reflexivity|]. now apply isact_In.
 Qed.
 
 Lemma f1_complex_act : complex_act fb = [].
 Proof.
-  unfold complex_act. apply filter_all_false. intros f _. apply f1_is_complex.
+  unfold complex_act. apply filter_all_false. intros f Hf. apply f1_is_complex. now apply isact_In.
 Qed.
 
 Lemma f1_nlevels_pos : forall f, f < nf fb -> 0 < nlevels fb f.
 Proof.
   intros f Hf. unfold nlevels, factor_at.
   destruct (nth_error (fl_design fb) f) as [fd|] eqn:E.
-  - pose proof (f1_factor fb FF f fd E) as H. unfold factor_f1 in H.
-    repeat rewrite andb_true_iff in H. destruct H as [[_ H] _]. apply Nat.ltb_lt. exact H.
+  - destruct (isact fb f) eqn:Ha.
+    + pose proof (f1_factor fb FF f fd E Ha) as H. unfold factor_f1 in H.
+      repeat rewrite andb_true_iff in H. destruct H as [[_ H] _]. apply Nat.ltb_lt. exact H.
+    + pose proof (f1_implied fb FF f fd E) as H. unfold implied_ok in H. rewrite Ha in H. cbn [orb] in H.
+      unfold factor_impl_f1 in H. repeat rewrite andb_true_iff in H. destruct H as [[H _] _]. apply Nat.ltb_lt. exact H.
   - apply nth_error_None in E. unfold nf in Hf. lia.
 Qed.
 
-Lemma f1_applies_to_trial : forall f n, 1 <= n -> applies_to_trial fb f n = true.
+Lemma f1_applies_to_trial : forall f n, isact fb f = true -> 1 <= n -> applies_to_trial fb f n = true.
 Proof.
-  intros f n Hn. unfold applies_to_trial, factor_at.
+  intros f n Ha Hn. unfold applies_to_trial, factor_at.
   destruct (nth_error (fl_design fb) f) as [fd|] eqn:E; auto.
-  pose proof (f1_factor fb FF f fd E) as H. unfold factor_f1 in H.
+  pose proof (f1_factor fb FF f fd E Ha) as H. unfold factor_f1 in H.
   destruct (ff_window fd) as [w|]; auto.
   repeat rewrite andb_true_iff in H. destruct H as [_ [[_ H2] H3]].
   apply Nat.eqb_eq in H2. apply Nat.eqb_eq in H3. rewrite H2, H3.
   rewrite Nat.mod_1_r. apply andb_true_iff. split; [apply Nat.leb_le; lia|reflexivity].
 Qed.
 
-Lemma f1_applies : forall f t, applies_at fb f t = true.
+Lemma f1_applies : forall f t, isact fb f = true -> applies_at fb f t = true.
 Proof.
-  intros f t. unfold applies_at. apply f1_applies_to_trial. lia.
+  intros f t Ha. unfold applies_at. apply f1_applies_to_trial; [exact Ha|lia].
 Qed.
 
 Lemma f1_vpt : vpt fb = off fb (nf fb).
@@ -327,18 +332,18 @@ Proof.
   intros f Hf. rewrite f1_vpt, <- (anl_act fb f Hf). apply off_mono. apply f1_act_lt. exact Hf.
 Qed.
 
-Lemma fold_applies_count : forall f (l : list nat) acc,
+Lemma fold_applies_count : forall f (l : list nat) acc, isact fb f = true ->
   fold_left (fun acc t => if applies_at fb f t then acc + nlevels fb f else acc) l acc
   = acc + length l * nlevels fb f.
 Proof.
-  intros f l. induction l as [|t l IH]; intros acc; simpl; [lia|].
-  rewrite f1_applies, IH. lia.
+  intros f l acc Ha. revert acc. induction l as [|t l IH]; intros acc; simpl; [lia|].
+  rewrite (f1_applies f t Ha), IH. lia.
 Qed.
 
-Lemma f1_vff : forall f, variables_for_factor fb f 0 0 = T fb * nlevels fb f.
+Lemma f1_vff : forall f, isact fb f = true -> variables_for_factor fb f 0 0 = T fb * nlevels fb f.
 Proof.
-  intros f. unfold variables_for_factor. cbn [Nat.eqb].
-  rewrite fold_applies_count, seq_length. unfold T, trials. lia.
+  intros f Ha. unfold variables_for_factor. cbn [Nat.eqb].
+  rewrite (fold_applies_count f _ _ Ha), seq_length. unfold T, trials. lia.
 Qed.
 
 Lemma f1_vps : variables_per_sample fb = T fb * vpt fb.
@@ -347,7 +352,7 @@ Proof.
   induction (nf fb) as [|n IH].
   - rewrite off_0. simpl. lia.
   - rewrite seq_S, fold_left_app, IH, off_S. cbn [fold_left Nat.add]. unfold anl.
-    destruct (isact fb n); [rewrite f1_vff|]; lia.
+    destruct (isact fb n) eqn:Ea; [rewrite (f1_vff n Ea)|]; lia.
 Qed.
 
 Lemma f1_grid : grid_variables fb = T fb * vpt fb.
@@ -372,24 +377,24 @@ Lemma f1_first_var : forall f l, isact fb f = true -> l < nlevels fb f ->
   first_variable_for_level fb f l = Some (off fb f + l).
 Proof.
   intros f l Hf Hl. pose proof (f1_act_lt f Hf) as Hlt.
-  unfold first_variable_for_level. rewrite f1_is_complex.
+  unfold first_variable_for_level. rewrite (f1_is_complex f Hf).
   replace (l <? nlevels fb f) with true by (symmetry; apply Nat.ltb_lt; exact Hl).
   rewrite f1_simple_act, (f1_act_sorted fb FF), f1_simple_offset by (try lia; exact Hf).
   cbn [option_map]. rewrite off_0. f_equal. lia.
 Qed.
 
-Lemma f1_prev : forall f t, previous_trials_count fb f t = t - 1.
+Lemma f1_prev : forall f t, isact fb f = true -> previous_trials_count fb f t = t - 1.
 Proof.
-  intros f t. unfold previous_trials_count. rewrite filter_all_true.
+  intros f t Ha. unfold previous_trials_count. rewrite filter_all_true.
   - apply seq_length.
-  - intros x _. apply f1_applies.
+  - intros x _. now apply f1_applies.
 Qed.
 
 Lemma f1_encode_any : forall f l trial, isact fb f = true -> l < nlevels fb f ->
   encode_variable fb f l trial = Some (gvar fb (trial - 1) f l).
 Proof.
   intros f l trial Hf Hl. unfold encode_variable.
-  rewrite f1_first_var, f1_is_complex, f1_prev by assumption.
+  rewrite f1_first_var, (f1_is_complex f Hf), f1_prev by assumption.
   unfold gvar, vpt. f_equal. lia.
 Qed.
 
@@ -476,7 +481,7 @@ Lemma f1_build_variable_lists : forall f l wb rs, isact fb f = true -> l < nleve
 Proof.
   intros f l wb rs Hf Hl Hrs. unfold build_variable_lists.
   rewrite f1_first_var, Hrs by assumption. f_equal.
-  apply map_ext. intros r. rewrite f1_is_complex. apply f1_simple_range_vars.
+  apply map_ext. intros r. rewrite (f1_is_complex f Hf). apply f1_simple_range_vars.
 Qed.
 
 Lemma f1_var_lists : forall f l wb rs, isact fb f = true -> l < nlevels fb f ->
@@ -573,9 +578,9 @@ Proof.
 Qed.
 
 (** ** Preambles *)
-Lemma f1_post_preamble : post_preamble_size fb = 0.
+Lemma f1_post_preamble : fl_alignment fb = PostPreamble -> post_preamble_size fb = 0.
 Proof.
-  unfold post_preamble_size. rewrite (f1_align_pre fb FF), fold_max_zero; [reflexivity|].
+  intros Ea. unfold post_preamble_size. rewrite (f1_align_pre fb FF Ea), fold_max_zero; [reflexivity|].
   apply (f1_preambles fb FF).
 Qed.
 
@@ -585,7 +590,7 @@ Proof.
   assert (N : nth i (fl_preambles fb) 0 = 0).
   { destruct (nth_in_or_default i (fl_preambles fb) 0) as [H|H]; [|exact H].
     apply (f1_preambles fb FF). exact H. }
-  destruct (fl_alignment fb); [apply f1_post_preamble|exact N|exact N].
+  destruct (fl_alignment fb) eqn:Ea; [now apply f1_post_preamble|exact N|exact N].
 Qed.
 
 End F1.
